@@ -22,8 +22,12 @@ RULE = ("resolution: class x span (1970-2099) x month offset 0-2 x instants plac
         "environments (ES, NK, ZN, VX, offset 0-1) on grids starting a few days before a last-trading date with gaps shorter than the roll window, "
         "quotes with spread for every unexpired contract, target weights of either sign, thresholds {0, 5%, 50%}; after every executed rebalance the "
         "only chain contract with a non-zero position is the model's lead at the execution time, the allocation is keyed by it, the position "
-        "follows q*M*px = w*NLV_pre when the imbalance clears the threshold, and nothing is held at or after its expiry. Non-trivial = an "
-        "instant exactly on a last-trading date (resolution) / an episode with a roll while a position is open (rolling).")
+        "follows q*M*px = w*NLV_pre when the imbalance clears the threshold, and nothing is held at or after its expiry. keyed: a continuous price series published "
+        "on the chain key (EventNBBO(contract=chain)) and played through an environment over grids that straddle a last-trading date (gaps 1 h - 3 days, "
+        "quotes on and between grid points, optional state that resolves the chain key from its quote callback): every book's history must list exactly "
+        "the quotes whose own timestamp makes that contract the lead, and after every step the chain key reads the lead's last quote. Non-trivial = an "
+        "instant exactly on a last-trading date (resolution) / an episode with a roll while a position is open (rolling) / a series that crosses a "
+        "roll (keyed).")
 ASSUMPTIONS = [
     "the model trusts Future.last_trading_date / expiry of the listed contracts (their correctness is C19)",
     "instants are inside the chain's span: a lead (shifted by the offset) exists",
@@ -236,7 +240,129 @@ def finish(res, case, rolled, executions):
     return res
 
 
+# ----------------------------------------------------------------------------------- chain-keyed price stream
+
+@st.composite
+def keyed_cases(draw, tier="quick"):
+    cls = draw(st.sampled_from(["ES", "NK", "ZN", "VX"]))
+    y = draw(st.integers(2000, 2080))
+    m = draw(st.integers(1, 12))
+    month = draw(st.sampled_from([0, 0, 1]))
+    k = draw(st.integers(0, 2))
+    back_h = draw(st.sampled_from([0, 1, 12, 24, 25, 47, 48, 72, 100]))
+    npts = draw(st.integers(3, 9))
+    gaps_h = draw(st.lists(st.sampled_from([24, 24, 24, 12, 23, 25, 48, 72, 1]), min_size=npts - 1, max_size=npts - 1))
+    # per grid point: is a chain-keyed quote stamped exactly on it, and offsets (hours before it) of further ones
+    quotes = draw(st.lists(st.tuples(st.sampled_from([True, True, True, False]),
+                                     st.lists(st.sampled_from([0.5, 1, 6, 11]), max_size=2, unique=True)),
+                           min_size=npts, max_size=npts))
+    quotes = [[a, list(b)] for a, b in quotes]
+    quotes[0][0] = True        # the series starts on the first grid point (an environment without events is not a use case)
+    return {"cls": cls, "start": [y, m], "month": month, "k": k, "back_h": back_h, "gaps_h": gaps_h,
+            "quotes": quotes, "reader": draw(st.booleans())}
+
+
+def run_keyed(case):
+    """A continuous price series published on the chain key and played through an environment: every quote must be
+    filed in the book of the contract that leads at the quote's own timestamp."""
+    from tradingenv.env import TradingEnv
+    from tradingenv.spaces import BoxPortfolio
+    from tradingenv.transmitter import Transmitter
+    res = Result()
+    cls = getattr(C, case["cls"])
+    y, m = case["start"]
+    em = y * 12 + (m - 1) + 18
+    chain = FutureChain(cls, "%04d-%02d" % (y, m), "%04d-%02d" % (em // 12, em % 12 + 1), month=case["month"])
+    futs = chain.contracts
+    ltds = [to_dt(f.last_trading_date) for f in futs]
+    k = min(case["k"], len(futs) - 1)
+    t0 = ltds[k] - timedelta(hours=case["back_h"])
+    grid = [t0]
+    for g in case["gaps_h"]:
+        grid.append(grid[-1] + timedelta(hours=g))
+    events, model = [], {f.symbol: [] for f in futs}
+    px = 100.0
+    stamps = set()
+    for gi, (on_grid, offs) in enumerate(case["quotes"]):
+        ts = ([grid[gi]] if on_grid else []) + [grid[gi] - timedelta(hours=o) for o in offs if gi > 0]
+        for t in ts:
+            if t in stamps or t < grid[0]:
+                continue
+            stamps.add(t)
+    crossed = 0
+    for t in sorted(stamps):
+        want = model_lead(ltds, t, case["month"])
+        if want is None or want >= len(futs):
+            res.excluded = "beyond-span"
+            return res
+        px += 1.0
+        events.append(EventNBBO(t, chain, px, px + 0.5))
+        if model[futs[want].symbol] == [] and want > 0 and any(model[f.symbol] for f in futs[:want]):
+            crossed += 1
+        model[futs[want].symbol].append((t, px))
+    seen = []
+
+    class Reader(E.IState):
+        """What a state (feature) resolving the chain key from its quote callback is shown."""
+        def process_EventNBBO(self, event):
+            if event.contract is chain:
+                seen.append((to_dt(event.time), chain.symbol, chain.static_hashing().symbol))
+
+        def parse(self):
+            return np.zeros(1)
+
+    tr = Transmitter(timesteps=grid)
+    tr.add_events(events)
+    kwargs = {"state": Reader()} if case.get("reader") else {}
+    env = TradingEnv(action_space=BoxPortfolio([chain], low=-1.0, high=1.0), transmitter=tr, initial_cash=1000.0, **kwargs)
+    env.reset()
+    for _ in range(len(grid) - 1):
+        try:
+            obs, reward, done, info = env.step(np.array([0.0]))
+        except Exception as exc:  # noqa
+            if type(exc).__name__ == "EndOfEpisodeError":
+                break
+            raise
+        now = to_dt(env.now())
+        want = model_lead(ltds, now, case["month"])
+        delivered = [(t, p) for sym in model for (t, p) in model[sym] if t <= now]
+        if want is not None and want < len(futs):
+            AbstractContract.now = now
+            mine = [p for (t, p) in model[futs[want].symbol] if t <= now]
+            got = env.exchange[chain].bid_price
+            if mine and got != mine[-1]:
+                res.fail("at %s the chain key reads bid %r; the lead %s was last quoted %r" % (now, got, futs[want].symbol, mine[-1]))
+                return _fin_keyed(res, case, crossed)
+        if done:
+            break
+    end = to_dt(env.now())
+    for (t, sym, sym2) in seen:
+        want = futs[model_lead(ltds, t, case["month"])].symbol
+        if sym != want or sym2 != want:
+            res.fail("while the chain-keyed quote stamped %s is dispatched, a state resolving the chain key gets %s / %s; the lead at that instant is %s" % (
+                t, sym, sym2, want))
+            return _fin_keyed(res, case, crossed)
+    for f in futs:
+        want_rows = [(t, p) for (t, p) in model[f.symbol] if t <= end]
+        hist = env.exchange[f].history
+        got_rows = list(zip([to_dt(t) for t in hist["time"]], [float(x) for x in hist["bid_price"]]))
+        if got_rows != want_rows:
+            res.fail("book of %s (last trading date %s) recorded the chain-keyed quotes %s; by their timestamps it should hold %s" % (
+                f.symbol, f.last_trading_date, [(str(t), p) for t, p in got_rows][:4], [(str(t), p) for t, p in want_rows][:4]))
+            break
+    return _fin_keyed(res, case, crossed)
+
+
+def _fin_keyed(res, case, crossed):
+    res.nontrivial = crossed > 0
+    res.tag(case["cls"], "offset=%d" % case["month"])
+    if crossed:
+        res.tag("stream-crosses-a-roll")
+    return res
+
+
 PARTS = [
+    Part("keyed", strategy=lambda tier: keyed_cases(tier), run=run_keyed, quick=1500, thorough=40000),
     Part("resolution", strategy=lambda tier: resolution_cases(tier), run=run_resolution, quick=3000, thorough=100000),
     Part("rolling", strategy=lambda tier: E.chain_episode_cases(tier, with_etf=True), run=run_rolling, quick=2500, thorough=80000),
 ]
